@@ -19,12 +19,14 @@ driver is asked the same question (batched).  Compared:
   * `merge_headers` (core/auth/base.py) alone on dicts with case-variant names vs `dictUpdateCI`.
 Assumption shared with the model: the plug-in objects inside a composite are distinct objects.
 
-oracle(): defect classes expected on the unchanged tree (Lean `_counterexample` theorems exist for them):
-  apikey-query-dropped                 Pog.C17.apikey_query_cookie_dropped_counterexample / _in_composite
-  apikey-cookie-dropped                idem
-Classes that must stay empty: header-case-variant-not-overridden (F27a, repaired: Pog.C17.header_precedence holds for
-  every input, the former witnesses are Pog.C17.header_precedence_former_witness(_auth)), header-last-writer-wrong,
-  apikey-header-missing, apikey-bad-location-no-error, passthrough-changed, unexpected-exception.
+oracle(): no defect class is expected any more; every class must stay empty:
+  header-case-variant-not-overridden   F27a, repaired: Pog.C17.header_precedence holds for every input, the former
+                                       witnesses are Pog.C17.header_precedence_former_witness(_auth)
+  apikey-query-dropped                 F27b, repaired: Pog.C17.apikey_query_cookie_placed(_in_composite), the former
+  apikey-cookie-dropped                witness is Pog.C17.apikey_query_placed_former_witness
+  header-last-writer-wrong, apikey-header-missing, apikey-bad-location-no-error, passthrough-changed (the caller's
+  params / cookies reach httpx as the same object unless a plug-in places an API key there: then a new dict with the
+  caller's entries and the plug-ins' writes in order; the caller's own dicts are never mutated), unexpected-exception.
 """
 from __future__ import annotations
 
@@ -158,6 +160,9 @@ def hand_cfgs() -> list[dict]:
         add(auth={"t": "oauth2", "token": "a", "refresh": {"map": m, "default": d}})
     add(auth={"t": "oauth2", "token": "a", "refresh": None})
     add(auth={"t": "oauth2", "token": "", "refresh": {"map": [["", "n"]], "default": None}})
+    for loc in ["header", "query", "cookie"]:
+        add(auth={"t": "apikey", "key": "K", "location": loc, "name": "api_key"}, explicit_none=True)
+    add(explicit_none=True, bearer="t")
     return cs
 
 
@@ -171,6 +176,7 @@ def rnd_cfg(rng: random.Random) -> dict:
         "bearer": rng.choice([None, None, "", "bt", "tok"]),
         "params": rng.choice([None, rnd_pairs(rng, PNAMES, 3)]),
         "cookies": rng.choice([None, None, rnd_pairs(rng, PNAMES, 2)]),
+        "explicit_none": rng.random() < 0.3,
     }
 
 
@@ -243,9 +249,13 @@ async def send(cfg: dict, n: int = 1, body=None) -> list[dict]:
             kw["headers"] = None
         if cfg.get("params") is not None:
             kw["params"] = dict(map(tuple, cfg["params"]))
+        elif cfg.get("explicit_none"):
+            kw["params"] = None  # what a generated client passes for an operation without query parameters
         if cfg.get("cookies") is not None:
             kw["cookies"] = dict(map(tuple, cfg["cookies"]))
-        snapshot = json.dumps([pairs(caller_headers), pairs(defaults)])
+        elif cfg.get("explicit_none"):
+            kw["cookies"] = None
+        snapshot = json.dumps([pairs(caller_headers), pairs(defaults), pairs(kw.get("params")), pairs(kw.get("cookies"))])
         seen_kw.clear()
         seen_req.clear()
         try:
@@ -255,7 +265,8 @@ async def send(cfg: dict, n: int = 1, body=None) -> list[dict]:
             continue
         assert len(seen_kw) == 1 and len(seen_req) == 1
         out.append({"kw": seen_kw[0], "kw_in": kw, "request": seen_req[0],
-                    "mutated": json.dumps([pairs(caller_headers), pairs(defaults)]) != snapshot})
+                    "mutated": json.dumps([pairs(caller_headers), pairs(defaults), pairs(kw.get("params")),
+                                           pairs(kw.get("cookies"))]) != snapshot})
     await t._client.aclose()
     return out
 
@@ -275,9 +286,11 @@ async def run_real(cfg: dict, n: int = 2) -> tuple[list, list]:
         extra = sorted(set(got) - {"headers", "params", "cookies", "json"})
         res = {"headers": pairs(got["headers"]), "params": pairs(got.get("params")),
                "cookies": pairs(got.get("cookies"))}
-        if extra or got.get("json") is not kw["json"] or ("params" in got) != ("params" in kw) \
-                or ("cookies" in got) != ("cookies" in kw):
-            res["passthrough_violation"] = [extra, repr(got.get("json"))]
+        # a keyword of the caller must not vanish; a new `params` / `cookies` keyword is a plug-in's (never None)
+        lost = [k for k in ("params", "cookies") if (k in kw and k not in got) or
+                (k in got and k not in kw and got[k] is None)]
+        if extra or lost or got.get("json") is not kw["json"]:
+            res["passthrough_violation"] = [extra, lost, repr(got.get("json"))]
         if o["mutated"]:
             res["mutated_inputs"] = True
         results.append(res)
@@ -377,6 +390,8 @@ async def _run(seed: int, scale: float, driver: str) -> dict:
             bump("caller params")
         if c["cookies"] is not None:
             bump("caller cookies")
+        if c.get("explicit_none") and (c["params"] is None or c["cookies"] is None):
+            bump("params=None / cookies=None passed explicitly")
         for res, wl in zip(r, w):
             if wl is None:
                 continue
@@ -476,8 +491,9 @@ O_KEYNAMES = ["api_key", "X-Key", "sid2", "token"]
 O_PNAMES = ["q", "page", "sort"]
 O_CNAMES = ["sid", "theme"]
 
-EXPECTED_CLASSES = ["apikey-query-dropped", "apikey-cookie-dropped"]
-OTHER_CLASSES = ["header-case-variant-not-overridden", "header-last-writer-wrong", "apikey-header-missing", "apikey-bad-location-no-error",
+EXPECTED_CLASSES: list[str] = []
+OTHER_CLASSES = ["header-case-variant-not-overridden", "apikey-query-dropped", "apikey-cookie-dropped",
+                 "header-last-writer-wrong", "apikey-header-missing", "apikey-bad-location-no-error",
                  "passthrough-changed", "unexpected-exception"]
 
 
@@ -601,8 +617,14 @@ async def evaluate(cfg: dict) -> tuple[int, list[dict]]:
     checks += 1
     kw, kw_in = o["kw"], o["kw_in"]
     problems = {}
-    for k in ("params", "cookies", "json"):
-        if (k in kw) != (k in kw_in) or (k in kw and (kw[k] is not kw_in[k] or kw[k] != kw_in[k])):
+    for k, writes in (("params", qry), ("cookies", ck), ("json", [])):
+        if writes:
+            # API keys placed there by plug-ins: a NEW dict, the caller's entries with the writes applied in order
+            want = dict(kw_in.get(k) or {})
+            want.update(writes)
+            if k not in kw or kw[k] is kw_in.get(k) or pairs(kw[k]) != pairs(want):
+                problems["kw:" + k] = [repr(kw.get(k)), repr(want)]
+        elif (k in kw) != (k in kw_in) or (k in kw and (kw[k] is not kw_in[k] or kw[k] != kw_in[k])):
             problems["kw:" + k] = [repr(kw.get(k)), repr(kw_in.get(k))]
     extra = sorted(set(kw) - {"headers", "params", "cookies", "json"})
     if extra:
@@ -673,7 +695,8 @@ def oracle_cases(seed: int, scale: float) -> list[dict]:
     cs: list[dict] = []
 
     def add(**kw):
-        c = {"defaults": None, "headers": None, "auth": None, "bearer": None, "params": None, "cookies": None}
+        c = {"defaults": None, "headers": None, "auth": None, "bearer": None, "params": None, "cookies": None,
+             "explicit_none": False}
         c.update(kw)
         c["hmode"] = "dict" if c["headers"] is not None else "none"
         cs.append(c)
@@ -690,6 +713,9 @@ def oracle_cases(seed: int, scale: float) -> list[dict]:
         add(auth={"t": "apikey", "key": "SECRET", "location": loc, "name": "api_key"})
         add(auth={"t": "apikey", "key": "SECRET", "location": loc, "name": "api_key"}, params=[["q", "1"]],
             cookies=[["sid", "s"]], defaults=[["X-Trace", "1"]])
+        add(auth={"t": "apikey", "key": "SECRET", "location": loc, "name": "api_key"}, explicit_none=True)
+        add(auth={"t": "apikey", "key": "SECRET", "location": loc, "name": "q"}, params=[["q", "1"], ["page", "2"]],
+            cookies=[["q", "c"]])
         add(auth={"t": "composite", "plugins": [{"t": "bearer", "token": "b"},
                                                 {"t": "apikey", "key": "SECRET", "location": loc, "name": "X-Key"},
                                                 {"t": "headers", "headers": [["X-B", "h"]]}]},
@@ -711,7 +737,8 @@ def oracle_cases(seed: int, scale: float) -> list[dict]:
             bearer=rng.choice([None, None, "bt", ""]),
             params=rng.choice([None, [[k, rng.choice(O_VALUES)] for k in rng.sample(O_PNAMES, rng.randint(0, 2))]]),
             cookies=rng.choice([None, None,
-                                [[k, rng.choice(O_VALUES)] for k in rng.sample(O_CNAMES, rng.randint(1, 2))]]))
+                                [[k, rng.choice(O_VALUES)] for k in rng.sample(O_CNAMES, rng.randint(1, 2))]]),
+            explicit_none=rng.random() < 0.3)
     return cs
 
 
